@@ -22,7 +22,7 @@ BOUNDS = {'quick': 'operator list x operand-unit pairs below, one in-place mutat
 EXHAUSTIVE = {'quick': True, 'thorough': True}
 PRE = '''
 import numpy as np
-from scinumtools.units import Quantity
+from scinumtools.units import Quantity, Unit
 def _freeze(x):
     # arrays are mutable: a snapshot must hold its own copy of the elements
     return list(x) if hasattr(x, 'shape') and getattr(x, 'shape', ()) != () else x
@@ -108,6 +108,22 @@ def run(v, O):
     out.append(('abse() sets the receiver', O.eq(A.abse(), v.e2)))
     return out
 '''
+DERIVED_SRC = '''
+def run(v, O):
+    # quantities derived from A (results, or built from A's magnitude / units); the in-place methods on them must leave A alone
+    A = Quantity(v.a, v.ua, abse=v.ea)
+    a0 = snap(A)
+    units0 = A.units()
+    derived = [('a+a', A + A), ('-a', -A), ('a*1', A * 1), ('a*1.0', A * 1.0), ('a/1', A / 1), ('a*Unit(s)', A * Unit('s')), ('a**1', A ** 1), ('a[...] copy via value', Quantity(A.value(), v.ua, abse=v.ea))]
+    out = []
+    for label, D in derived:
+        D.abse(v.e2)
+        D.rebase()
+        out += same(O, f'operand after abse()/rebase() on {label}', a0, snap(A))
+        out.append((f'operand still equals a fresh copy after {label}', O.truth(A == Quantity(v.a, v.ua))))
+    out.append(('units of a later product equal those of a fresh copy', O.same((A * Unit('s')).units(), (Quantity(v.a, v.ua) * Unit('s')).units())))
+    return out
+'''
 OPS_BIN = {
     'add': 'lambda A, B: A + B', 'sub': 'lambda A, B: A - B', 'mul': 'lambda A, B: A * B', 'div': 'lambda A, B: A / B',
     'eq': 'lambda A, B: A == B', 'radd': 'lambda A, B: B + A', 'rsub': 'lambda A, B: B - A',
@@ -185,6 +201,9 @@ def scenarios(tier, seed):
     for pname, (ua, ub, ur, ua2, ub2) in PAIRS.items():
         S.append(Scenario(f'inplace/{pname}', INPLACE_SRC, {'a': 'real', 'b': 'real', 'ea': 'real', 'eb': 'real', 'e2': 'real'}, POS,
                           consts={'ua': ua, 'ua2': ua2}, preamble=PRE, what=f'in-place methods change only their receiver ({ua})', samples=1))
+    for ua in ('cm*m', 'km*s-1*m', 'm', 'J*erg-1*kg'):
+        S.append(Scenario(f'derived/{ua}', DERIVED_SRC, {'a': 'real', 'b': 'real', 'ea': 'real', 'e2': 'real'}, ['v.ea >= 0', 'v.e2 >= 0', 'v.a > 0'], consts={'ua': ua}, preamble=PRE,
+                          what=f'in-place methods on quantities derived from a quantity in {ua}', samples=2))
     S.append(Scenario('canary/snapshot', '''
         def run(v, O):
             A = Quantity(v.a, 'km', abse=v.ea)
